@@ -63,7 +63,7 @@ def gen_case(d, family='small', enzymes=None, n_small=(1, 5), ref_kw=None, alt=T
         kw = dict(n_genes=(2, 2), max_tx=1, p_nf=0.0)
     if family == 'fuscirc':
         kw = dict(n_genes=(2, 2), max_tx=1, p_nf=0.0, n_exons=(2, 3))
-    if family == 'as':
+    if family in ('as', 'as_nested'):
         kw = dict(n_genes=(1, 1), max_tx=1, p_nf=0.12, n_exons=(2, 4))
     if family == 'multi':
         kw = dict(n_genes=(1, 2), max_tx=2, p_nf=0.12)
@@ -100,11 +100,16 @@ def gen_case(d, family='small', enzymes=None, n_small=(1, 5), ref_kw=None, alt=T
                     records += vargen.gen_small(d, ref, tid, d.randint(1, 2), spread=spread)
                 continue
             records += vargen.gen_small(d, ref, tid, d.randint(*n_small), spread=spread)
-    elif family == 'as':
+    elif family in ('as', 'as_nested'):
         tid = tids[0]
         records += vargen.gen_as(d, ref, tid, d.randint(1, 2))
         if d.chance(0.6):
             records += vargen.gen_small(d, ref, tid, d.randint(1, 3))
+        if family == 'as_nested':
+            # variants inside the inserted intronic segment (header checks only: the
+            # haplotype model does not apply records inside inserted segments)
+            for r in [x for x in records if x['kind'] == 'as' and x['as'] in ('ins', 'sub')]:
+                records += vargen.gen_nested(d, ref, tid, r, d.randint(1, 3))
     elif family == 'fusion':
         dtx, atx = tids[0], tids[1]
         if d.chance(0.5):
@@ -387,6 +392,12 @@ def entry_witness(case, ref:Ref, seq, e, known_ids):
             if r is None:
                 return ('unknown-id', f'{vid} is not a record of {tid}')
             named.append(r)
+        if case.get('family') == 'as_nested' and any(r['kind'] == 'as' and r['as'] in
+                ('ins', 'sub') for r in named):
+            # entries on an isoform with an inserted intronic segment (which may carry
+            # records of its own): the ids are checked above, the product is not re-derived
+            # (records inside inserted segments are outside the haplotype model)
+            return None
         edits, _ = M.tx_edits(ref, tid, named, M.start_index_of(ref, tid))
         if len(edits) != len(named):
             return ('unusable-id', 'names a record that cannot be applied to the transcript')
@@ -633,6 +644,12 @@ def check_headers(case, res):
                 if rec['kind'] == 'circ' and circ_rare_signature(case, ref, rec, seq):
                     known.append(('CV-circ-copy-inconsistency', seq, e['entry']))
                     continue
+            if case.get('family') == 'as_nested' and w[0] in ('not-a-product', 'unusable-id',
+                    'incompatible-ids'):
+                # inputs with records inside inserted intronic segments are outside the
+                # haplotype model: only the existence of ids, the backbone and the
+                # uniqueness of entries are judged in this family
+                continue
             bad.append((w[0], seq, e['entry'], w[1]))
     return bad, known, dict(n_entries=n_entries, nontrivial=nontrivial)
 
